@@ -223,6 +223,13 @@ func goLiteralAt(g *Gen, m map[string]string, loc Term, t types.Type, qual types
 	switch u := t.Underlying().(type) {
 	case *types.Struct:
 		var fs []string
+		if nt, ok := t.(*types.Named); ok && nt.Obj().Pkg() != nil && !strings.HasPrefix(nt.Obj().Pkg().Path(), modPath) {
+			for i := 0; i < u.NumFields(); i++ {
+				if !u.Field(i).Exported() {
+					return "", false // opaque library object (bufio.Reader, sync.Mutex, ...): cannot be built from a model
+				}
+			}
+		}
 		for i := 0; i < u.NumFields(); i++ {
 			name := u.Field(i).Name()
 			if name == "state" || name == "sizeCache" || name == "unknownFields" {
